@@ -163,6 +163,7 @@ structure Http where
   ctype : Bytes
   params : List Src          -- path, query, header, cookie — the order bindInternal uses
   form : Src                 -- Request.Form after ParseForm (URL query and body), for the form content type
+  mform : Option Src := none -- Request.MultipartForm.Value when ParseMultipartForm ran: the fields of the multipart body alone
   docs : List DocInfo        -- doc 0: the body the request arrives with; the others: replacement bodies
   bodyTags : Bool            -- hasJSONOrFormTag
   deriving Repr, Inhabited
@@ -172,6 +173,13 @@ structure CtxState where
   cur : Option Nat := some 0    -- what Request.Body would deliver (`none`: Body is nil)
   last : BOut := .ok .nil       -- the outcome of the latest bind
   deriving Repr, Inhabited
+
+/-- bindForm: which container the form values are bound from. The dispatch of bindInternal reads the Content-Type
+    trimmed and lowered (`classifyCT`), bindForm tests the raw header for the prefix `multipart/form-data`: only
+    then the body is parsed as multipart and `MultipartTo` binds from `MultipartForm.Value` - the fields of the body
+    alone; otherwise `ParseForm` + `FormTo` bind from `Request.Form` (URL query merged with a URL-encoded body). -/
+def formSrc (h : Http) : Src :=
+  if hasPrefix h.ctype (B "multipart/form-data") then h.mform.getD { kind := .form, kvs := [] } else h.form
 
 /-- the value sources of bindInternal's `binding.BindTo` call, in the order it lists them
     (tied to app/context.go by `Tie.C04Bind.tie_app_source_order`) -/
@@ -198,8 +206,8 @@ def appBind (P : Params) (fs : List Fld) (init : Val) (h : Http) (strict : Bool)
           | .ok dv => { st with last := .ok (mergeDec init dv v) }
           | .error e => { st with last := .err e }
       | .form | .multipart =>
-        -- bindForm: FormTo over Request.Form (a bind of its own, defaults included)
-        { st with last := ofOutcome (bind P Cfg.default .form (.struct fs) v h.form) }
+        -- bindForm: FormTo over Request.Form / MultipartTo over MultipartForm.Value (a bind of its own, defaults included)
+        { st with last := ofOutcome (bind P Cfg.default .form (.struct fs) v (formSrc h)) }
       | .other => { st with last := .err .ctype }
 
 def appStep (P : Params) (fs : List Fld) (init : Val) (h : Http) (st : CtxState) : Op → CtxState
